@@ -1102,6 +1102,10 @@ fn next_attribute<T: Iterator<Item = TokenTree>>(
     let mut attr_tokens = vec![];
 
     loop {
+        // a trailing comma (or an empty argument list) ends the list
+        if next_eof(&mut args_group).is_some() {
+            break;
+        }
         let attribute_name = next_ident(&mut args_group).expect("Expecting attribute name");
         attr_tokens.push(attribute_name);
 
